@@ -20,7 +20,7 @@ import tempfile
 import time
 
 VERIF = "/verif"
-REPO = "/repo"
+REPO = os.environ.get("VERIF_REPO", "/repo")
 COQ = os.path.join(VERIF, "coq")
 THEORIES = os.path.join(COQ, "theories")
 PY = "/venv/bin/python"
@@ -464,11 +464,18 @@ def run_workers_parallel(script, payloads, timeout=1800, jobs=16):
 # Known findings, violations, evidence
 # --------------------------------------------------------------------------
 def load_known():
-    path = os.path.join(VERIF, "known_findings.json")
-    if not os.path.exists(path):
-        return []
-    with open(path) as fh:
-        return json.load(fh).get("findings", [])
+    """known_findings.json plus per-property files known_findings.d/*.json
+    (same format; all committed, never written at run time)."""
+    out = []
+    paths = [os.path.join(VERIF, "known_findings.json")]
+    d = os.path.join(VERIF, "known_findings.d")
+    if os.path.isdir(d):
+        paths += sorted(os.path.join(d, f) for f in os.listdir(d) if f.endswith(".json"))
+    for path in paths:
+        if os.path.exists(path):
+            with open(path) as fh:
+                out += json.load(fh).get("findings", [])
+    return out
 
 
 class Failure:
